@@ -129,6 +129,7 @@ func (p *Prog) loadPipeline() *LoadPipeline {
 func runC07(c *Ctx) {
 	p := c.P
 	s := p.Selectors()
+	s.checkErrorsNotSwallowed(c, "errors-not-swallowed", inPkgs("loader", "types"), "a configuration that must be rejected would load")
 	lp := p.loadPipeline()
 	c.Touch(lp.Load)
 	project := p.Named("types", "Project")
